@@ -55,7 +55,7 @@ def run(ctx):
         # binding self-test (notes/C35.md): swap the order of two predicted series of one payload
         for b in behs:
             ss = [i for i, e in enumerate(b["proto"]) if e["k"] == "ser"]
-            if len(ss) >= 2 and not b["kf1"] and not b["kf2"]:
+            if len(ss) >= 2:
                 b["proto"][ss[0]], b["proto"][ss[1]] = b["proto"][ss[1]], b["proto"][ss[0]]
                 ctx.log("VERIF_CORRUPT: corrupted one payload")
                 break
